@@ -88,7 +88,14 @@ func (c *Check) zeroHeightRefunds(rule string) {
 				}
 				return true
 			})
-			okAmt = it != nil && it.ContainsAtom("@types.EarnedFeesKey") && b["$X"].Op == "out"
+			// the decoded record: the decoder's out-value, possibly behind a module helper that returns it
+			decoded := true
+			for _, v := range c.retVariants(b["$X"]) {
+				if stripConv(v).Op != "out" {
+					decoded = false
+				}
+			}
+			okAmt = it != nil && it.ContainsAtom("@types.EarnedFeesKey") && decoded
 		}
 		c.req(okAmt && e.InLoop, rule, construct+"#earned-amount", e.Pos, "every record of the whole earnings family is paid out with the coin decoded from that record: "+shortTerm(e.Amount))
 		okTo := false
@@ -217,6 +224,44 @@ func (c *Check) exportAccumulators(exp *Func) []exportAccum {
 				if e.Kind == "store" && e.Op == "Iter" && len(e.Chain) <= 3 {
 					if _, bare := c.P.keys().Prefixes[e.Builder]; bare {
 						fam = e.Family
+					}
+				}
+			}
+			// a scan function that hands back the whole family as slices: the variables that receive its results,
+			// and the maps the export builds from them, are the collections
+			if fam != "" && len(ev.CI.fn.Res) >= 1 && ev.Result != nil {
+				callStr := ev.Result.String()
+				isFromCall := func(t *Term) bool {
+					return t != nil && (t.String() == callStr || t.Contains(ev.Result))
+				}
+				for _, e2 := range pa.Events {
+					if (e2.Kind != EvAssign && e2.Kind != EvWrite) || e2.Val == nil {
+						continue
+					}
+					acc := exportAccum{fam: fam}
+					switch {
+					case e2.Kind == EvAssign && e2.Var != nil && (e2.Val.String() == callStr || (e2.Val.Op == "res" && len(e2.Val.A) == 2 && e2.Val.A[1].String() == callStr)):
+						if _, isSlice := e2.Var.Type().Underlying().(*types.Slice); !isSlice {
+							continue
+						}
+						acc.typ, acc.name = e2.Var.Type().String(), e2.Var.Name()
+					case e2.Val.Op == "upd" && len(e2.Val.A) == 3 && (isFromCall(e2.Val.A[1]) || isFromCall(e2.Val.A[2])):
+						switch {
+						case e2.Kind == EvAssign && e2.Var != nil:
+							acc.typ, acc.name = e2.Var.Type().String(), e2.Var.Name()
+						case e2.Val.Typ != nil:
+							acc.typ, acc.name = e2.Val.Typ.String(), e2.Field
+						case e2.Old != nil && e2.Old.Typ != nil:
+							acc.typ, acc.name = e2.Old.Typ.String(), e2.Field
+						}
+						acc.enc = e2.Val.A[1].Op
+					default:
+						continue
+					}
+					k := acc.typ + "|" + acc.fam + "|" + acc.enc + "|" + acc.name
+					if !seen[k] {
+						seen[k] = true
+						out = append(out, acc)
 					}
 				}
 			}
@@ -776,4 +821,3 @@ func (c *Check) storedValuesValidate(rule string) {
 	c.req(ok, rule, name+"#accepts-empty-deposit", pos,
 		"the empty deposit stored by "+where.Name+" (full refund) is accepted by the deposit validator that genesis validation applies to exported bindings")
 }
-
